@@ -3,6 +3,7 @@ import TantivyModel.Proofs.Fragments
 import TantivyModel.Proofs.NgramSnippet
 import TantivyModel.Proofs.Html
 import TantivyModel.Proofs.Stateful
+import TantivyModel.Proofs.Instances
 /-!
 # C19 — Tokens and snippets always point inside the text, on character boundaries
 
@@ -589,6 +590,13 @@ theorem C19_html_pieces_wellformed (sn : Snippet) (out : List Html) (h : toHtml 
     ∀ e ∈ out, WfHtml e :=
   toHtmlAux_wf sn.fragment (collapse sn.hl) 0 out h
 
+/-- the `<b>…</b>` pairs of the rendering enclose, in order, exactly the text of the collapsed
+highlight ranges of the fragment (nothing else is tagged, no range is skipped or shifted) -/
+theorem C19_html_tags_enclose_collapsed_highlights (sn : Snippet) (out : List Html)
+    (h : toHtml sn = some out) :
+    tagged out = (collapse sn.hl).map (fun r => (sliceFrom 0 sn.fragment r.1 r.2).map Cp.code) :=
+  toHtmlAux_tagged sn.fragment (collapse sn.hl) 0 out h
+
 /-- end to end for the code as it is: any contract-satisfying token stream renders, and the
 rendering reads back as the fragment, which is a slice of the text on character boundaries -/
 theorem C19_snippet_html_roundtrip (s : Text) (M : Nat) (ts : List STok) (hc : SContract s ts) :
@@ -600,6 +608,114 @@ theorem C19_snippet_html_roundtrip (s : Text) (M : Nat) (ts : List STok) (hc : S
   rw [h1] at e1
   cases e1
   exact ⟨sn, out, a, b, h1, h3, ha, hb, hab, hf, by rw [← hf]; exact C19_html_roundtrip sn out h3⟩
+
+/-! ### hypotheses of the partial theorems, discharged for built-in analyzers -/
+
+/-- lower-caser, ASCII folding and stemmer (whatever their text functions are): the sequence of
+(offset_from, offset_to, position) is exactly the input's — nothing dropped, added or moved -/
+theorem C19_rewriting_filters_keep_token_sequence (f : Filter) (hf : f.Rewrites) (ts : List Token) :
+    (f.apply ts).map (fun t => (t.from_, t.to, t.pos)) = ts.map (fun t => (t.from_, t.to, t.pos)) :=
+  apply_rewrites_keys f hf ts
+
+/-- `RemoveLongFilter::limit(L)` right behind a tokenizer (tokens still equal to their slice; the
+strict `<` of the predicate is read from the source), followed by any filters: every token is
+shorter than `L` bytes *in the text* -/
+theorem C19_remove_long_bounds_token_length (s : Text) (L : Nat) (fs : List Filter)
+    (ts : List Token) (hc : Contract s ts) (hs : ∀ t ∈ ts, TextIsSlice s t) :
+    ∀ t ∈ applyChain (Filter.removeLong L :: fs) ts, t.to - t.from_ < L :=
+  removeLong_chain_bounds s L fs ts hc hs
+
+/-- the fragment-length clause, **without** the "no token longer than the limit" hypothesis, for
+every analyzer of the shape of tantivy's `default` / `en_stem` analyzers — Simple (or Whitespace)
+tokenizer, `RemoveLongFilter::limit(L)`, then any filters — whenever `L ≤ max_num_chars + 1`: the
+fragment has at most `max_num_chars` bytes, hence characters -/
+theorem C19_remove_long_analyzer_fragment_length (p : Cp → Bool) (L : Nat) (fs : List Filter)
+    (s : Text) (M : Nat) (hM : L ≤ M + 1) (sc : Token → Option Nat) :
+    ∃ sn, snippet stopMode s M
+        ((applyChain (Filter.removeLong L :: fs) (scanTokens p s)).map (toSTok sc)) = some sn ∧
+      byteLen sn.fragment ≤ M ∧ sn.fragment.length ≤ M := by
+  obtain ⟨hc, hs, _⟩ := scanTokens_contract p s
+  obtain ⟨hcc, _⟩ := C19_chain_preserves_offsets (Filter.removeLong L :: fs) s _ hc
+  have hb := C19_remove_long_bounds_token_length s L fs _ hc hs
+  apply C19_fragment_length_partial
+  · refine ⟨?_, ?_⟩
+    · intro t ht
+      simp only [List.mem_map] at ht
+      obtain ⟨u, hu, rfl⟩ := ht
+      exact hcc.inb u hu
+    · simp only [List.pairwise_map, toSTok]
+      exact hcc.mono.imp (fun h => h.1)
+  · intro t ht
+    simp only [List.mem_map] at ht
+    obtain ⟨u, hu, rfl⟩ := ht
+    have := hb u hu
+    simp only [toSTok]; omega
+
+/-- … with the extracted constants: the `default` analyzer's limit (40) and the default
+`max_num_chars` (150) — a snippet of the default configuration never exceeds the limit -/
+theorem C19_default_analyzer_fragment_within_default_limit (fs : List Filter) (s : Text)
+    (sc : Token → Option Nat) :
+    ∃ sn, snippet stopMode s Gen.DEFAULT_MAX_NUM_CHARS
+        ((applyChain (Filter.removeLong Gen.DEFAULT_REMOVE_TOKEN_LENGTH :: fs)
+          (simpleTokens s)).map (toSTok sc)) = some sn ∧
+      byteLen sn.fragment ≤ Gen.DEFAULT_MAX_NUM_CHARS ∧
+      sn.fragment.length ≤ Gen.DEFAULT_MAX_NUM_CHARS :=
+  C19_remove_long_analyzer_fragment_length _ _ fs s _ (by decide) sc
+
+/-- the fragment-length clause for n-gram analyzers (any filter chain behind them) whenever
+`max_num_chars ≥ 4 · max_gram` -/
+theorem C19_ngram_analyzer_fragment_length (s : Text) (hv : ∀ c ∈ s, c.code < 0x110000)
+    (minG maxG : Nat) (hmin : 0 < minG) (hle : minG ≤ maxG) (prefixOnly : Bool)
+    (fs : List Filter) (M : Nat) (hM : 4 * maxG ≤ M) (sc : Token → Option Nat) :
+    ∃ sn, snippet stopMode s M
+        ((applyChain fs (ngramTokens s minG maxG prefixOnly)).map (toSTok sc)) = some sn ∧
+      byteLen sn.fragment ≤ M ∧ sn.fragment.length ≤ M := by
+  obtain ⟨hc, _⟩ := C19_ngram_offsets s hv minG maxG hmin hle prefixOnly
+  obtain ⟨hcc, hsame⟩ := C19_chain_preserves_offsets fs s _ hc
+  apply C19_fragment_length_partial
+  · refine ⟨?_, ?_⟩
+    · intro t ht
+      simp only [List.mem_map] at ht
+      obtain ⟨u, hu, rfl⟩ := ht
+      exact hcc.inb u hu
+    · simp only [List.pairwise_map, toSTok]
+      exact hcc.mono.imp (fun h => h.1)
+  · intro t ht
+    simp only [List.mem_map] at ht
+    obtain ⟨u, hu, rfl⟩ := ht
+    obtain ⟨v, hv', e1, e2, _⟩ := hsame u hu
+    have := ngram_token_len s hv minG maxG hmin hle prefixOnly v hv'
+    simp only [toSTok]; omega
+
+/-- the "raw highlights sorted and disjoint" clause for every analyzer = a tokenizer with
+non-overlapping tokens + filters that never duplicate a token (everything but the compound
+splitter) -/
+theorem C19_nonsplitting_analyzer_raw_highlights_disjoint (s : Text) (ts0 : List Token)
+    (hc : Contract s ts0) (hd : ts0.Pairwise (fun a b => a.to ≤ b.from_)) (fs : List Filter)
+    (hfs : ∀ f ∈ fs, f.NoSplit) (M : Nat) (sc : Token → Option Nat) :
+    ∃ sn, snippet stopMode s M ((applyChain fs ts0).map (toSTok sc)) = some sn ∧
+      sn.hl.Pairwise (fun a b => a.2 ≤ b.1) := by
+  obtain ⟨hcc, _⟩ := C19_chain_preserves_offsets fs s _ hc
+  have hd' := chain_pairwise_offsets fs hfs (fun a b => a.2 ≤ b.1) ts0 hd
+  apply C19_raw_highlights_disjoint_partial
+  · refine ⟨?_, ?_⟩
+    · intro t ht
+      simp only [List.mem_map] at ht
+      obtain ⟨u, hu, rfl⟩ := ht
+      exact hcc.inb u hu
+    · simp only [List.pairwise_map, toSTok]
+      exact hcc.mono.imp (fun h => h.1)
+  · simp only [List.pairwise_map, toSTok]
+    exact hd'
+
+/-- … instantiated: Simple / Whitespace tokenizer behind lower-caser, folding, remove-long,
+alphanumeric-only, stop words, stemmer in any order and number -/
+theorem C19_scan_analyzer_raw_highlights_disjoint (p : Cp → Bool) (fs : List Filter)
+    (hfs : ∀ f ∈ fs, f.NoSplit) (s : Text) (M : Nat) (sc : Token → Option Nat) :
+    ∃ sn, snippet stopMode s M ((applyChain fs (scanTokens p s)).map (toSTok sc)) = some sn ∧
+      sn.hl.Pairwise (fun a b => a.2 ≤ b.1) := by
+  obtain ⟨hc, _, hp⟩ := scanTokens_contract p s
+  exact C19_nonsplitting_analyzer_raw_highlights_disjoint s _ hc (hp.imp (fun h => h.1)) fs hfs M sc
 
 /-! ### state that survives a stream: history independence -/
 
@@ -648,6 +764,37 @@ theorem C19_split_stale_parts_counterexample :
   refine ⟨fun t => if t = [1, 2] then some [[1], [2]] else none,
     [([⟨0, 16, 0, [1, 2]⟩], 1)], [⟨0, 5, 0, [7]⟩], by decide, rfl⟩
 
+/-- the extractor finds `output.clear()` at the start of `to_lowercase_unicode` and `to_ascii`,
+and `self.buffer.clear()` before the stemmer refills its buffer -/
+theorem C19_rewrite_buffers_cleared :
+    Gen.LOWERCASER_CLEARS_OUTPUT ≠ 0 ∧ Gen.ASCII_FOLDING_CLEARS_OUTPUT ≠ 0 ∧
+    Gen.STEMMER_CLEARS_BUFFER ≠ 0 := by decide
+
+/-- history independence of the lower-caser, the ASCII-folding filter and the stemmer, which build
+the new text in a reusable `String` that they swap with the token text: whatever the buffer holds
+when the stream starts (any earlier tokens, any earlier streams), the stateful stream over the
+tokens of its tail is the stateless filter -/
+theorem C19_rewrite_filters_history_independent (buf : List Nat) (ts : List Token)
+    (f : Nat → List Nat) (fo : Nat → Option (List Nat)) (g : List Nat → List Nat)
+    (owned : List Nat → Bool) :
+    (bufferedStream (lowerStep Gen.LOWERCASER_CLEARS_OUTPUT f) buf ts).1 = (Filter.lower f).apply ts ∧
+    (bufferedStream (foldStep Gen.ASCII_FOLDING_CLEARS_OUTPUT fo) buf ts).1 = (Filter.fold fo).apply ts ∧
+    (bufferedStream (stemStep Gen.STEMMER_CLEARS_BUFFER g owned) buf ts).1 = (Filter.stem g).apply ts := by
+  obtain ⟨h1, h2, h3⟩ := C19_rewrite_buffers_cleared
+  refine ⟨?_, ?_, ?_⟩
+  · rw [apply_lower_eq_map]
+    exact bufferedStream_of_step _ _ (lowerStep_text h1 f) ts buf
+  · rw [apply_fold_eq_map]
+    exact bufferedStream_of_step _ _ (foldStep_text h2 fo) ts buf
+  · rw [apply_stem_eq_map]
+    exact bufferedStream_of_step _ _ (stemStep_text h3 g owned) ts buf
+
+/-- without the `clear()` the texts accumulate: the second non-ASCII token comes out prefixed by
+the first one's original text -/
+theorem C19_rewrite_buffer_not_cleared_counterexample :
+    (bufferedStream (lowerStep 0 (fun c => [c])) [] [⟨0, 2, 0, [233]⟩, ⟨3, 5, 1, [252]⟩]).1
+      = [⟨0, 2, 0, [233]⟩, ⟨3, 5, 1, [233, 252]⟩] := by decide
+
 /-- the extractor finds `self.token.reset()` in `token_stream` of every built-in tokenizer, and
 `Token::reset` sets `position = usize::MAX` -/
 theorem C19_tokenizers_reset_token :
@@ -694,6 +841,11 @@ example : SContract [⟨97, true⟩, ⟨233, true⟩, ⟨32, false⟩, ⟨98, tr
     ∧ ∀ t ∈ [(⟨0, 3, some 4⟩ : STok), ⟨4, 5, none⟩], t.to - t.from_ ≤ 3 :=
   ⟨⟨by decide, by decide⟩, by decide, by decide⟩
 example : [(⟨0, 3, some 4⟩ : STok), ⟨4, 5, none⟩].Pairwise (fun a b => a.to ≤ b.from_) := by decide
+-- the hypotheses of the instance theorems
+example : (Filter.lower (fun c => [c])).Rewrites ∧ (Filter.removeLong 40).NoSplit
+    ∧ ∀ f ∈ [Filter.removeLong 40, Filter.lower (fun c => [c]), Filter.alnumOnly], f.NoSplit := by
+  simp [Filter.Rewrites, Filter.NoSplit]
+example : Gen.DEFAULT_REMOVE_TOKEN_LENGTH ≤ Gen.DEFAULT_MAX_NUM_CHARS + 1 ∧ 4 * 3 ≤ 150 := by decide
 -- a history: a compound abandoned after its first part, then another text
 example : (1 : Nat) ≠ 0 ∧ splitHistory 1 (fun t => if t = [1, 2] then some [[1], [2]] else none) []
     [([⟨0, 16, 0, [1, 2]⟩], 1)] = [⟨0, 16, 0, [1]⟩, ⟨0, 16, 0, [2]⟩] := by decide
@@ -711,6 +863,7 @@ example : renderChars [.ent 60, .open_, .raw 97, .close, .ent 62, .raw 32, .raw 
     = [38, 108, 116, 59, 60, 98, 62, 97, 60, 47, 98, 62, 38, 103, 116, 59, 32, 98] := by decide
 example : unescapeChars [38, 108, 116, 59, 60, 98, 62, 97, 60, 47, 98, 62, 38, 103, 116, 59, 32, 98]
     = [60, 97, 62, 32, 98] := by decide
+example : tagged [.ent 60, .open_, .raw 97, .close, .ent 62, .raw 32, .raw 98] = [[97]] := by decide
 -- `<a> b` with `a` highlighted renders as `&lt;<b>a</b>&gt; b`
 example : toHtml ⟨[⟨60, false⟩, ⟨97, true⟩, ⟨62, false⟩, ⟨32, false⟩, ⟨98, true⟩], [(1, 2)]⟩
     = some [.ent 60, .open_, .raw 97, .close, .ent 62, .raw 32, .raw 98] := by decide
